@@ -103,6 +103,8 @@ structure AffineCfg where
   gs : Nat
   ge : Nat
   mm : Nat
+  /-- proposed repair F42: the quality is `distances[1][1] - distances[0][1]` (as-is `false`: the reversed difference) -/
+  fixSign : Bool
 deriving Repr, DecidableEq
 
 /-- the distance the affine branch of `realign` uses: every base gets `default_mismatch` -/
@@ -121,11 +123,11 @@ def distOf : Option AffineCfg → Seq → Seq → Nat
 def qualityOf (aff : Option AffineCfg) (sorted : List (Nat × Nat)) : Int :=
   match aff with
   | none => 30
-  | some _ =>
+  | some p =>
     match sorted with
     | [] => 0
     | [a] => (a.2 : Int)
-    | a :: b :: _ => (a.2 : Int) - (b.2 : Int)
+    | a :: b :: _ => if p.fixSign then (b.2 : Int) - (a.2 : Int) else (a.2 : Int) - (b.2 : Int)
 
 /-- `ReadSetReader.realign`: (allele, quality) -/
 def realignQ (f14 : Bool) (aff : Option AffineCfg) (v : Variant) (restricted : Option (List Nat)) (query : Seq)
